@@ -59,6 +59,22 @@ THEOREMS = [
     "SynKit.Reactor.explicitH_spectator_witness",
     "SynKit.Reactor.isMonoB_iff",
     "SynKit.Reactor.exMono",
+    "SynKit.Reactor.explicit_host_prepared",
+    "SynKit.Reactor.explicit_rematch_sound",
+    "SynKit.Reactor.explicit_left_unchanged",
+    "SynKit.Reactor.explicit_specA_verdict",
+    "SynKit.Reactor.explicit_balance",
+    "SynKit.Reactor.explicit_balanced",
+    "SynKit.Reactor.explicit_rc_image",
+    "SynKit.Reactor.explicit_rc_iso",
+    "SynKit.Reactor.explicit_specC",
+    "SynKit.Reactor.explicit_folded_count_not_rematched",
+    "SynKit.Reactor.explicit_guard_from_substrate",
+    "SynKit.Reactor.explicit_balance_explicitH",
+    "SynKit.Reactor.fullStatement_explicit_partial",
+    "SynKit.Reactor.exMonoX",
+    "SynKit.Reactor.explicit_guard_needed_witness_sites",
+    "SynKit.Reactor.explicit_guard_needed_witness",
 ]
 
 MAX_MAPS = 8        # mappings per case compared stage-wise
